@@ -7,6 +7,8 @@ MC:   FsBinlog.tla: writer (putLevToBuffer arithmetic, writer loop at system-cal
 S->I: write histories exported by TLC with the code's writeCrcEveryBytes (payloads that cross the
       crc32 interval, chunk sizes that force rotation) plus seeded random longer ones are
       executed on the real fsbinlog (gofs in-memory and real directories).
+      Histories with a crash inside the last write (Tear) followed by a restart as master and more
+      appends are exported separately: the writer has to refuse to start or cut the torn tail.
 I->S: everything observed (offsets returned by Append, every Engine.Commit with an fsync probe,
       the record layout parsed from the real files, and the callbacks of ReadAll from every
       possible commit position on intact, truncated and bit-flipped copies) is validated by
@@ -24,6 +26,7 @@ INV_WHAT = {
     "CommitValidObs": "commit at a position that is not a possible buffer boundary / wrong snapshot meta",
     "CommitDurableObs": "commit notified for bytes that were not fsynced",
     "StopCleanObs": "shutdown did not commit everything appended / Run failed",
+    "RefusalJustified": "Run refused to start although the binlog has no torn tail",
 }
 
 
@@ -82,7 +85,7 @@ def run(ctx):
     th = ctx.thorough
     # 1. model checking of the design, 2. write histories for the driver (real writeCrcEveryBytes);
     #    the three TLC runs and the build of the driver are independent and run side by side
-    with concurrent.futures.ThreadPoolExecutor(max_workers=4) as ex:
+    with concurrent.futures.ThreadPoolExecutor(max_workers=5) as ex:
         f_mc = ex.submit(ctx.tlc, "FsBinlogMC", "FsBinlog_mc_big.cfg" if th else "FsBinlog_mc.cfg",
                          timeout=3000 if th else 900, coverage=th, name="reader/damage model", workers=max(2, NCPU // 2), heap="4g",
                          constants={"CrcEvery": 64, "Chunks": [100, 170, 1000000], "Lens": [12, 21, 50],
@@ -93,12 +96,16 @@ def run(ctx):
                            constants={"CrcEvery": 64, "Chunks": [100, 1000000], "Lens": [12, 50], "MaxOps": 6 if th else 4})
         f_beh = ex.submit(ctx.tlc, "FsBinlogMC", "FsBinlog_beh_big.cfg" if th else "FsBinlog_beh.cfg", timeout=900,
                           name="behaviour export", workers=max(2, NCPU // 4), heap="4g")
+        # histories with a crash inside the last write: ... Stop, Tear(k), Restart as master, appends, Stop
+        f_torn = ex.submit(ctx.tlc, "FsBinlogMC", "FsBinlog_beh_torn.cfg", timeout=1800, name="torn-tail behaviour export",
+                           workers=max(2, NCPU // 4), heap="4g")
         f_bin = ex.submit(ctx.go_build_test, "internal/vkgo/binlog/fsbinlog")
-        mc, fine, beh = f_mc.result(), f_fine.result(), f_beh.result()
+        mc, fine, beh, torn = f_mc.result(), f_fine.result(), f_beh.result(), f_torn.result()
         f_bin.result()
     ctx.require_model_ok(mc, "FsBinlog reader/damage invariants")
     ctx.require_model_ok(fine, "FsBinlog writer-loop invariants")
     ctx.require_model_ok(beh, "behaviour export")
+    ctx.require_model_ok(torn, "torn-tail behaviour export")
     ctx.ev.set("exhaustive", True)
     bs = beh.behaviours
     maxlen = max(len(b) for b in bs)
@@ -114,6 +121,11 @@ def run(ctx):
     full.sort(key=score)
     ntake = 300 if th else 90
     take = full[: ntake // 2] + rnd.sample(full[ntake // 2:], min(len(full) - ntake // 2, ntake - ntake // 2)) if len(full) > ntake else full
+    tb = list(torn.behaviours)
+    if not any(x.get("a") == "Tear" for b in tb for x in b):
+        raise Infra("torn-tail export produced no Tear history")
+    rnd.shuffle(tb)
+    take = take + tb[: (150 if th else 40)]
     env = {"VERIF_NRANDOM": 150 if th else 30,
            "VERIF_C18_TRUNC": 40 if th else 16, "VERIF_C18_FLIP": 70 if th else 30, "VERIF_C18_READ": 12 if th else 6,
            "VERIF_C18_ALLBELOW": 420 if th else 0, "VERIF_C18_ALLWORLDS": 30, "VERIF_C18_OSEVERY": 10}
